@@ -50,7 +50,7 @@ func NewFlange1(
 	s.l = u.Length()
 	// work out the bounding box
 	w := distance + sideRadius
-	h := centerRadius
+	h := math.Max(centerRadius, sideRadius)
 	s.bb = Box2{v2.Vec{-w, -h}, v2.Vec{w, h}}
 	return &s
 }
